@@ -319,7 +319,7 @@ def main(ck):
     targets = ["C02/Corr.vo"]
     have_proofs = os.path.exists(os.path.join(ck.verif, "coq", "C02", "Props.v"))
     if have_proofs:
-        targets += ["C02/Proofs.vo", "C02/Refine.vo"]
+        targets += ["C02/Proofs.vo", "C02/Refine.vo", "C02/FileCursor.vo"]
     ok = ck.coq_build(targets)
     if ok and have_proofs:
         props = ["C02/Props.v"]
